@@ -333,6 +333,14 @@ def run(case, j):
                 # the threshold sits exactly ON the smallest score the link has to accept: not below it, so not reached
                 est.score_threshold = float(np.asarray(picks[t_last]["scores"], dtype=float)[picks[t_last]["chosen"]])
                 j.note("thresholds_equal_to_a_score")
+            elif link["threshold"] == "relative":
+                # a relative threshold that means something: 0.9 x the smallest ratio (score of a pick / score of the
+                # first scored pick) of the single cold fit - not reached there, hence not reached by any chain either,
+                # whatever the scores do in between (those of the CUR family go up and down)
+                sc_ = [float(np.asarray(p_["scores"], dtype=float)[p_["chosen"]]) for p_ in picks if p_.get("scores") is not None and p_.get("chosen") is not None]
+                if len(sc_) >= 2 and sc_[0] > 0 and min(sc_) > 0 and np.all(np.isfinite(sc_)):
+                    est.score_threshold = 0.9 * min(sc_) / sc_[0]
+                    j.note("relative_thresholds_just_below_the_smallest_ratio")
             j.note("threshold_toggles")
         else:
             est.score_threshold = None
